@@ -290,6 +290,29 @@ def run_op(case, seed, cache=None):
             if observed is not None:  # like train_model: no observed experiments -> sample from the prior
                 model.add_observations(observed)
             h = sampling.sample(model=model, results=ThetaHolder(n_thetas=3), seed=seed, n_chains=2, chain_index=1, n_burnin=1, thin=1)
+            # two more models of the same class, alive together and stepped in turn, each with its own seeded generator: the first one's
+            # states are those of a model stepped alone with that generator (another live model is not an input)
+            def fresh_model(rng_seed):
+                m_ = cls(experiment_space=ExperimentSpace.from_screen(screen), n_embedding_dimensions=case["D"])
+                if observed is not None:
+                    m_.add_observations(observed)
+                m_.set_rng(np.random.default_rng(rng_seed))
+                return m_
+
+            def state(m_):
+                t_ = m_.get_model_state()
+                return {k_: (np.asarray(v_, dtype=float).tobytes().hex() if not isinstance(v_, dict) else sorted(v_.items())) for k_, v_ in sorted(dict(t_.private_parameters_dict()).items())}
+
+            with np.errstate(all="ignore"):
+                a_, b_ = fresh_model(seed % 1000 + 5), fresh_model(seed % 1000 + 6)
+                third_ = cls(experiment_space=ExperimentSpace.from_screen(screen), n_embedding_dimensions=case["D"])  # noqa: F841  (constructed with defaults, never used)
+                for _ in range(2):
+                    a_.step()
+                    b_.step()
+                solo_ = fresh_model(seed % 1000 + 5)
+                for _ in range(2):
+                    solo_.step()
+            require(state(a_) == state(solo_), op + ".independent_of_other_live_models", "a model stepped in turn with another live model of its class (each with its own seeded generator) reaches another state than the same model stepped alone")
             return canon_thetas(h)
         # ---- command line steps with --seed
         warm()
